@@ -117,7 +117,10 @@ def neutral_patches():
         return out
     for name in sorted(os.listdir(nd)):
         patch = os.path.join(nd, name, "patch.diff")
-        if not os.path.exists(patch) or os.path.exists(os.path.join(nd, name, "NOT-NEUTRAL")):
+        if not os.path.exists(patch) or os.path.exists(os.path.join(nd, name, "NOT-NEUTRAL")) \
+                or os.path.exists(os.path.join(nd, name, "KNOWN-FALSE-ALARM")):
+            # (KNOWN-FALSE-ALARM: a recorded residual false alarm, listed in DESIGN.md 9.6 - not hidden, but not part of the
+            # expectations the thorough tier enforces)
             continue
         out.append({"id": "neutral:" + name, "kind": "neutral", "props": [], "what": "independent refactor " + name,
                     "edits": [], "patch": patch})
